@@ -49,6 +49,12 @@ CHECKS = [
               "exits by return/Exception/BaseException/ill-typed parameter/ill-typed return and generator/coroutine creation are executed; after "
               "every node the caller's and callee's bindings must equal the model stack, and top level must stay stateless.",
          note="model: a stack of dicts; observation through print_bindings and check verdicts; single-threaded (threads are C06)"),
+    dict(property_id="C08", level="exploration", design_ref="DESIGN.md §5 C08, §3.3",
+         technique="Hypothesis-generated (prior context, leaf type, tree) cases decided by a reference PyTree flatten + dim matcher; laws PyTree[L]==PyTree[PyTree[L]], bare PyTree, rollback and bindings==model checked on every case",
+         text="Trees over tuples/lists/dicts/None/empty containers/namedtuples/custom nodes with 8 kinds of leaf type (scalars, pairs, unions, Any, "
+              "arrays, Union[array,str], tuple[array,int]) are checked in a context populated by earlier array checks; verdict and bindings must "
+              "equal the reference model's.",
+         note="trusted: vf/models/pytree.py + dimlang.py; leaf types with shape-dependent leaf boundaries excluded (documented don't-care)"),
 ]
 _pending = "check not built yet in this round (will be claimed once its machinery is committed)"
 NOT_APPLICABLE = [dict(property_id=f"C{i:02d}", reason=_pending) for i in range(1, 21)
